@@ -17,6 +17,7 @@
    the Go stack". *)
 From P2 Require Import Base.Prelude Sem.Num Sem.Syntax Sem.Ops Sem.Lib Sem.Ref Conc.Crash Conc.CrashProofs Conc.NoPanicProofs Conc.TryProofs.
 Require Import Sorted.
+From P2 Require Sem.Gen Sem.Sim Sem.Guard Sem.GuardProofs Sem.GenNoPanicProofs.
 Local Open Scope N_scope.
 
 (* ---- (1) operators and library: every fault is a returned error, never a panic ---- *)
@@ -202,6 +203,43 @@ Print Assumptions C05_method_never_panics.
 Print Assumptions C05_main_fault_is_error.
 Print Assumptions C05_faults_are_catchable.
 Print Assumptions C05_try_catches_returned_errors.
+(* ---------- the recursion guard in the semantic core (Sem/Guard.v) ----------
+   The crash model above treats the guard abstractly (FRec* fault sources, storage_set / stk_push
+   bookkeeping).  Sem/Guard.v puts the same guard - stackStorage.set panics when it APPENDS at an
+   index n with base + n > limit - around the generator model of C01 as a wrapper: exec_guarded is
+   one-step-for-one-step Gen.exec (guard_step is a copy of the step function that GenProofs.exec_S
+   shows to be Gen.exec) with the depth base threaded and the five pushes guarded; Gen.exec itself is
+   untouched.  The guard of the code is the instance limit = N.to_nat guard_limit. *)
+
+(* the generator model alone never panics: a Panic of the guarded run is the guard *)
+Theorem C05_exec_never_panics : forall known fuel am cm st offs size cs a,
+  fst (Sem.Gen.exec known fuel am cm st offs size cs a) <> Panic.
+Proof. exact Sem.GenNoPanicProofs.exec_never_panics_lemma. Qed.
+
+(* below the limit the guard is invisible: unless it fires, the guarded run IS the run of Gen.exec
+   (same outcome, same storage) - for every program, fuel, frame and depth base *)
+Theorem C05_guarded_agrees_below_limit : forall known limit fuel db am cm st offs size cs a,
+  fst (Sem.Guard.exec_guarded known limit fuel db am cm st offs size cs a) <> Panic ->
+  Sem.Gen.exec known fuel am cm st offs size cs a =
+  Sem.Guard.exec_guarded known limit fuel db am cm st offs size cs a.
+Proof. exact Sem.GuardProofs.guarded_agrees_lemma. Qed.
+
+(* the storage of a guarded run only grows and never holds more than limit + 1 - base values
+   (index limit is the last one that can be appended), whatever the program does *)
+Theorem C05_guarded_never_exceeds : forall known limit fuel db am cm st offs size cs a,
+  (offs + size <= length st)%nat -> (db + length st <= S limit)%nat ->
+  (length st <= length (snd (Sem.Guard.exec_guarded known limit fuel db am cm st offs size cs a)))%nat /\
+  (db + length (snd (Sem.Guard.exec_guarded known limit fuel db am cm st offs size cs a)) <= S limit)%nat.
+Proof. exact Sem.GuardProofs.guarded_never_exceeds_lemma. Qed.
+
+(* the runaway recursion  func f(n) f(n+1); f(0)  (fault source FRecShared with one slot per level):
+   for EVERY fuel from limit + 4 on the guarded run answers the guard's panic - the model stops
+   because of the guard, not because it runs out of fuel *)
+Theorem C05_guarded_terminates_on_runaway : forall known limit fuel, (limit + 4 <= fuel)%nat ->
+  fst (Sem.Guard.exec_guarded known limit fuel 0%nat [] [] [] 0%nat 0%nat [] Sem.Guard.runaway) = Panic.
+Proof. exact Sem.GuardProofs.guarded_runaway_lemma. Qed.
+
+
 Print Assumptions C05_try_keeps_values.
 Print Assumptions C05_no_fatal_partial.
 Print Assumptions C05_no_fatal_sites_partial.
@@ -221,3 +259,7 @@ Print Assumptions C05_undemanded_fault_invisible.
 Print Assumptions C05_push_guards_depth.
 Print Assumptions C05_recursion_through_guarded_method_partial.
 Print Assumptions C05_recursion_through_fresh_method_refuted.
+Print Assumptions C05_exec_never_panics.
+Print Assumptions C05_guarded_agrees_below_limit.
+Print Assumptions C05_guarded_never_exceeds.
+Print Assumptions C05_guarded_terminates_on_runaway.
